@@ -42,8 +42,7 @@ pub open spec fn MAX_TOPIC() -> int { 0x7fff_ffff_ffff_ff00 }
 
 //@@ item file=src/store/mod.rs fn=idx_topic_key_prefix ret=v
 //@@ spec
-    requires topic.spec_bytes().len() <= MAX_TOPIC(),
-    ensures v@ == topic_prefix(id_u128(context_id), topic.spec_bytes()), //# keys.prefix.layout
+//@@include _spec_key_prefix.rs
 //@@ prologue
     broadcast use axiom_yields_array16, axiom_yields_slice, lemma_be16_len;
 //@@ end
@@ -51,10 +50,7 @@ pub open spec fn MAX_TOPIC() -> int { 0x7fff_ffff_ffff_ff00 }
 //@@ item file=src/store/mod.rs fn=idx_topic_key_from_frame ret=r
 //@@ rewrite: crate::error::Error ==> ! Error
 //@@ spec
-    requires topic_bytes(frame).len() <= MAX_TOPIC(),
-    ensures
-        r.is_ok() <==> nul_free(topic_bytes(frame)), //# keys.from_frame.err_iff_nul
-        r.is_ok() ==> r.unwrap()@ == topic_key(id_u128(frame.context_id), topic_bytes(frame), id_u128(frame.id)), //# keys.from_frame.layout
+//@@include _spec_key_from_frame.rs
 //@@ prologue
     broadcast use axiom_yields_array16, axiom_yields_slice, lemma_be16_len;
     proof {
@@ -68,8 +64,7 @@ pub open spec fn MAX_TOPIC() -> int { 0x7fff_ffff_ffff_ff00 }
 
 //@@ item file=src/store/mod.rs fn=idx_topic_frame_id_from_key ret=r
 //@@ spec
-    requires key@.len() >= 16,
-    ensures id_bytes(r) == key@.subrange(key@.len() - 16, key@.len() as int), //# keys.id_from_key.last16
+//@@include _spec_key_id_from_key.rs
 //@@ prologue
     broadcast use lemma_be16_len, ax_try_into_spec16;
     proof { ax_obeys_into16(); }
@@ -79,14 +74,14 @@ pub open spec fn MAX_TOPIC() -> int { 0x7fff_ffff_ffff_ff00 }
 
 //@@ item file=src/store/mod.rs fn=idx_context_key_from_frame ret=v
 //@@ spec
-    ensures v@ == ctx_key(id_u128(frame.context_id), id_u128(frame.id)), //# keys.ctx_key.layout
+//@@include _spec_key_ctx_key.rs
 //@@ prologue
     broadcast use axiom_yields_array16, axiom_yields_slice, lemma_be16_len;
 //@@ end
 
 //@@ item file=src/store/mod.rs fn=idx_context_key_range_end ret=v
 //@@ spec
-    ensures id_u128(context_id) < u128::MAX ==> v@ == be16((id_u128(context_id) + 1) as u128), //# keys.range_end.next_ctx
+//@@include _spec_key_range_end.rs
 //@@ end
 
 // ---- slices of Store::iter_frames ----
